@@ -39,6 +39,10 @@ def is_zero_const(e):
 def check_clause(job, env):
     """Returns (violated: bool | None, detail).  None = clause not applicable at this point (outside precondition)."""
     fam = job["family"]
+    if fam == "compile":
+        return check_compile(job, env)
+    if fam == "lp":
+        return check_lp(job, env)
     args = [build(a) for a in job["args"]]
     fn = resolve(job["fn"])
     clause = job["clause"].split("#")[0]
@@ -50,8 +54,6 @@ def check_clause(job, env):
         return (True, f"raised {type(ex).__name__}: {str(ex)[:120]}") if job.get("no_raise_expected", True) else (None, "raised")
     if clause == "no-raise":
         return False, "did not raise"
-    if fam == "compile":
-        return check_compile(job, env)
     if fam == "simplify":
         op = job["op"]
         try:
@@ -134,6 +136,81 @@ def check_compile(job, env):
     if not math.isfinite(exp):
         return None, "outside domain"
     return (not close(got, exp)), f"compiled value {got}, formula value {exp} at {dict(zip(order, x.tolist()))}"
+
+
+def check_lp(job, env):
+    """LP extraction family: constants at the zero point, coefficient vectors as  c.x = f(x) - f(0)  in index-map order."""
+    from optyx import analysis
+    e = build(job["args"][0])
+    names = sorted(variables_of(e))
+    fnkey = job["fn"]
+    fn = resolve(fnkey)
+    short = fnkey.split(":")[1]
+    zero = {n: 0.0 for n in names}
+    try:
+        f0 = den(e, zero)
+    except Undefined:
+        return None, "outside domain"
+    try:
+        if not analysis.is_linear(e):
+            return None, "not classified linear by optyx"
+    except Exception as ex:
+        return None, f"is_linear raised {type(ex).__name__}"
+    if short in ("_extract_constant_impl", "extract_constant_term"):
+        try:
+            got = float(fn(e))
+        except Exception as ex:
+            return True, f"raised {type(ex).__name__}: {str(ex)[:100]}"
+        return (not close(got, f0)), f"constant term {got}, value of the formula at 0 is {f0}"
+    order = job.get("order")
+    if not order:
+        # several column orders: the fast paths only trigger for exact covers whose first column is in place
+        from oracle import vec_elems
+        first = None
+        root = e
+        for cand in (getattr(e, "left", None), e):
+            v = getattr(cand, "vector", None)
+            if v is not None and hasattr(v, "_variables"):
+                first = [x.name for x in v._variables]
+        cands = []
+        if first and set(first) == set(names):
+            cands.append([first[0]] + sorted(first[1:], reverse=True))
+            cands.append([first[0]] + sorted(first[1:]))
+        sh = list(names)
+        random.Random(len(names) * 7 + 1).shuffle(sh)
+        cands.append(sh + ["zz_extra"])
+        cands.append(list(names))
+        for od in cands:
+            j2 = dict(job)
+            j2["order"] = od
+            v_, d_ = check_lp(j2, env)
+            if v_:
+                return v_, d_
+        return False, "all column orders agree"
+    for n in names:
+        if n not in order:
+            order.append(n)
+    idx = {n: i for i, n in enumerate(order)}
+    n_ = len(order)
+    x = np.array([float(env.get(nm, 0.7)) for nm in order])
+    try:
+        fx = den(e, {nm: float(x[i]) for i, nm in enumerate(order)})
+    except Undefined:
+        return None, "outside domain"
+    try:
+        if short == "_extract_all_coefficients_impl":
+            r = np.zeros(n_)
+            fn(e, idx, r, 1.0)
+        elif short == "_try_extract_fast_binop":
+            r = fn(e, idx, n_)
+            if r is None:
+                return False, "no fast path"
+        else:
+            r = fn(e, idx, n_)
+    except Exception as ex:
+        return True, f"raised {type(ex).__name__}: {str(ex)[:100]}"
+    got = float(np.dot(np.asarray(r, dtype=float), x))
+    return (not close(got, fx - f0)), f"c.x = {got} but f(x) - f(0) = {fx - f0} with columns {order} and x = {x.tolist()}, c = {np.asarray(r).tolist()}"
 
 
 def env_of(e, env, extra=None):
